@@ -650,6 +650,11 @@ impl Scenario for C14 {
                 let what = s.split(']').next().unwrap_or("").trim_start_matches("SUT_PANIC[").to_string();
                 RunEnd::Violation(Violation::new(&format!("C14/panic@{}", site), what, s))
             }
+            RunEnd::Violation(v) if v.class.ends_with("/no_verdict_panic") => {
+                // C13 reports a panicking test_timer as a violation of its own: it is one here as well
+                let site = v.key.rsplit('@').next().unwrap_or("?").to_string();
+                RunEnd::Violation(Violation::new(&format!("C14/panic@{}", site), "test_timer", v.detail))
+            }
             RunEnd::Violation(_) => {
                 // another property's oracle: reported by that property's own check, not here
                 st.count("other_property_oracle_ignored");
